@@ -62,6 +62,10 @@ ArgOf(a) ==
 LeafPath(i, n) == [pos |-> [m \in 1..n |-> <<i - 2 * m, m + 1, 2 * i - 3>>], ori |-> [m \in 1..n |-> IF (i + m) % 2 = 0 THEN Rz90 ELSE Rx90]]
 Leaf(i, n) == [kind |-> "leaf", id |-> i, tag |-> i, path |-> LeafPath(i, n)]
 Sources(n) == CASE n = 1 -> <<Leaf(1, 1)>> [] n = 2 -> <<Leaf(1, 2), [kind |-> "coll", kids |-> <<Leaf(2, 1), Leaf(3, 3)>>]>>
+                \* source arguments the documentation does not admit: an entry without any source in it
+                [] n = 3 -> <<Leaf(1, 1), [kind |-> "coll", kids |-> <<>>]>>
+                [] n = 4 -> <<[kind |-> "coll", kids |-> <<[kind |-> "sens"]>>], Leaf(1, 2)>>
+                [] n = 5 -> <<Leaf(1, 1), [kind |-> "sens"]>>
 
 Scenarios == [a : Args, n : SrcNs, field : Fields, agg : Aggs, flags : Flags]
 Init == /\ sc \in Scenarios
@@ -81,8 +85,9 @@ StackIsOne == (arg.kind = "list" /\ AllPosSameShape(arg.items)) =>
 \* a collection stands for exactly its sensors, sources inside are ignored
 CollIsItsSensors == arg.kind = "coll" => \A i \in 1..Len(ObsSensors(arg)) : ObsSensors(arg)[i].id \in {"a", "b", "c", "d", "e"}
 \* an admitted argument with an aggregator is always a well-formed call; without one iff all pixel shapes agree
-AdmittedRule == ObsAdmitted(arg) => (ObsWellFormed(c, arg) <=> (c.agg # "none" \/ AllSamePix(CallOfObs(c, arg))))
+AdmittedRule == (ObsAdmitted(arg) /\ SourcesAdmitted(c)) => (ObsWellFormed(c, arg) <=> (c.agg # "none" \/ AllSamePix(CallOfObs(c, arg))))
 \* the implementation view yields the requirement view on the sensors the argument stands for
+SourcesRule == ~SourcesAdmitted(c) => ~ObsWellFormed(c, arg)
 ObsRefines == ObsWellFormed(c, arg) => Refines(CallOfObs(c, arg))
 ASSUME \A a \in 1..31 : ArgOf(a).kind \in {"pos", "sens", "coll", "list", "junk"}
 =============================================================================
